@@ -118,22 +118,32 @@ def closure_oracle(ctx, s, res, rec, case):
         return out
     memo = {}
 
+    class JustLine(Exception):
+        pass
+
     def sets_up(n):
         if n not in memo:
-            memo[n] = False if D.get(n) is None else all(sets_up(x) for (opt, x, j) in lines(n) if not opt)
+            if D.get(n) is None:
+                memo[n] = False
+            else:
+                if any(j for (opt, x, j) in lines(n)):
+                    raise JustLine()           # a -j line in a table that is read: outside the clause as proved
+                memo[n] = all(sets_up(x) for (opt, x, j) in lines(n) if not opt)
         return memo[n]
     closure, todo = set(), [rq["name"]]
-    while todo:
-        n = todo.pop()
-        if n in closure:
-            continue
-        closure.add(n)
-        for (opt, x, j) in lines(n):
-            if j:
-                ctx.bump("closure-oracle:-j-line")
-                return
-            if sets_up(x):
-                todo.append(x)
+    try:
+        sets_up(rq["name"])
+        while todo:
+            n = todo.pop()
+            if n in closure:
+                continue
+            closure.add(n)
+            for (opt, x, j) in lines(n):
+                if sets_up(x):
+                    todo.append(x)
+    except JustLine:
+        ctx.bump("closure-oracle:-j-line")
+        return
     ctx.bump("closure-oracle:evaluated")
     if len(closure) > 2:
         ctx.bump("closure-oracle:evaluated-3-or-more-products")
